@@ -99,8 +99,15 @@ class SingleEngine(Engine):
 def get_engine(pid):
     if pid in SINGLE:
         return SingleEngine(pid)
+    from . import paired
+    if pid in paired.ENGINES:
+        return paired.ENGINES[pid]()
+    if pid == "C10":
+        from . import crash
+        return crash.C10Engine()
     raise KeyError(pid)
 
 
 def available():
-    return sorted(SINGLE)
+    from . import paired
+    return sorted(set(SINGLE) | set(paired.ENGINES) | {"C10"})
